@@ -244,7 +244,7 @@ func (in *instr) mapRange(x *ast.RangeStmt, t types.Type, mt *types.Map) ast.Stm
 	}}
 }
 
-var syncShims = map[string]string{"Mutex": "verifMutex", "RWMutex": "verifRWMutex", "Once": "verifOnce", "WaitGroup": "verifWaitGroup"}
+var syncShims = map[string]string{"Mutex": "verifMutex", "RWMutex": "verifRWMutex", "Once": "verifOnce", "WaitGroup": "verifWaitGroup", "Pool": "verifPool"}
 
 func main() {
 	src := flag.String("src", "/repo", "directory of package jmespath")
@@ -634,5 +634,72 @@ func (w *verifWaitGroup) Wait() {
 	for w.n > 0 {
 		VerifBlock(w)
 	}
+}
+
+// verifPool replaces sync.Pool in the instrumented build: a deterministic LIFO free list that never
+// drops an item and has no per-P caches, so that an execution is a function of the schedule alone
+// (a real sync.Pool hands out different objects from run to run). VerifResetPools empties every pool;
+// the schedule explorer calls it before each execution, which makes every execution start like a
+// fresh process and keeps replays exact. Get and Put are reported as synchronisation operations.
+type verifPool struct {
+	New   func() interface{}
+	mu    sync.Mutex
+	items []interface{}
+	reg   bool
+}
+
+var verifPoolsMu sync.Mutex
+var verifPools []*verifPool
+
+// VerifResetPools empties every pool that has been used so far.
+func VerifResetPools() {
+	verifPoolsMu.Lock()
+	for _, p := range verifPools {
+		p.mu.Lock()
+		p.items = nil
+		p.mu.Unlock()
+	}
+	verifPoolsMu.Unlock()
+}
+
+func (p *verifPool) register() {
+	if !p.reg {
+		p.reg = true
+		verifPoolsMu.Lock()
+		verifPools = append(verifPools, p)
+		verifPoolsMu.Unlock()
+	}
+}
+
+func (p *verifPool) Get() interface{} {
+	if h := VerifSync; h != nil {
+		h("pool-get", p)
+	}
+	p.mu.Lock()
+	p.register()
+	var x interface{}
+	if n := len(p.items); n > 0 {
+		x = p.items[n-1]
+		p.items[n-1] = nil
+		p.items = p.items[:n-1]
+	}
+	p.mu.Unlock()
+	if x == nil && p.New != nil {
+		x = p.New()
+	}
+	return x
+}
+
+func (p *verifPool) Put(x interface{}) {
+	if x == nil {
+		return
+	}
+	if h := VerifSync; h != nil {
+		h("pool-put", p)
+	}
+	p.mu.Lock()
+	p.register()
+	p.items = append(p.items, x)
+	p.mu.Unlock()
 }
 `
